@@ -232,6 +232,9 @@ func runC04(ctx *core.Ctx) {
 		ctx.Add("c04.docs", map[string]any{"base": c04Wire(base), "docs": docs})
 	}
 
+	// ---- 8b. ResetProcessor.Apply on arbitrary recorded-path lists (wildcards, sequence positions, any order)
+	runC04Apply(ctx, g)
+
 	// ---- 9. the seq / keys loop of enforceUnicity as written: keyed lists repeating keys in every order
 	runC04Loop(ctx, g)
 
